@@ -322,6 +322,15 @@ func txUpdateAttrs(tx *bolt.Tx, id uint64, m map[string]interface{}) (map[string
 		}
 	}
 
+	// Remove the entry when no attributes are left, so that an id whose
+	// attributes were all deleted looks like an id that was never set.
+	if len(attr) == 0 {
+		if err := tx.Bucket([]byte("attrs")).Delete(u64tob(id)); err != nil {
+			return nil, errors.Wrap(err, "deleting attrs")
+		}
+		return attr, nil
+	}
+
 	// Marshal and save new values.
 	buf, err := pilosa.EncodeAttrs(attr)
 	if err != nil {
